@@ -58,10 +58,23 @@ def run(shard, ctx):
         names = [L + a for a in T.acc_strings(shard["k"])]
         names += [T.spell(T.LETTERS.index(L), n) for n in range(-shard["pure"], shard["pure"] + 1)
                   if abs(n) > shard["k"]]
-        for n in names:
+        # names a thousand and more accidentals long (pure and mixed): "whatever the input's accidentals"
+        longs = [L + "#" * 1100, L + "b" * 1300, L + "#b" * 700, L + "b#" * 900 + "b"]
+        for n in names + longs:
             for fname in T.CONSTRUCTORS:
                 check_constructor(ctx, fname, n)
-                ctx.case((fname, n), nontrivial=len(n) > 1)
+                ctx.case((fname, n if len(n) < 40 else (n[:3], len(n))), nontrivial=len(n) > 1)
+        for n in longs:
+            for other in ("C", "F#", "Bbb", longs[0]):
+                for (a, b) in ((n, other), (other, n)):
+                    d = (T.pc(b) - T.pc(a)) % 12
+                    st, v = ctx.call(intervals.measure, a, b)
+                    ctx.check("measure == pc difference mod 12", st == "ok" and v == d, {"note1": a[:4] + "...", "len1": len(a), "note2": b[:4], "len2": len(b)}, d,
+                              repr(v)[:120], mechanism="measure:long-names")
+                    st, v = ctx.call(intervals.is_consonant, a, b)
+                    ctx.check("consonance: default includes fourths", st == "ok" and v == (d in (0, 3, 4, 5, 7, 8, 9)),
+                              {"note1": a[:4] + "...", "len1": len(a), "note2": b[:4], "len2": len(b)}, d in (0, 3, 4, 5, 7, 8, 9), repr(v)[:120],
+                              mechanism="consonant:long-names")
         ctx.note_exhaustive("17 constructors x names %s... with <= %d accidentals in every order" % (L, shard["k"]),
                             17 * (2 ** (shard["k"] + 1) - 1))
         ctx.sample({"minor_seventh(%s)" % (L + "b"): intervals.minor_seventh(L + "b"),
